@@ -3,13 +3,26 @@
 //!
 //! Protocol: see Driver/C01.lean. Harness-side words on a line: `who=` sender, `to=` recipient, `pay=` funds (ustars),
 //! `id=` token id, `src=`/`coll=` source token / source collection of a token-merge deposit, `what=`/`arg=` of a noise op.
-//! Witness words appended for the model: `gate=` (0 iff the implementation rejected the op for a reason that is NOT a
-//! supply reason: payment, limits, clock, whitelist, authorisation …), `pos=` (position whose entry disappeared from the
-//! raw `mt` map), `owner=`, `perm=` (ids by position after a shuffle), `eff=` (a deposit reached the mint step), `init=`.
+//! Witness words appended for the model: `gate=`, `pos=` (position whose entry disappeared from the `mt` map), `owner=`,
+//! `perm=` (ids by position after a shuffle), `eff=` (a deposit reached the mint step), `init=`.
+//!
+//! Round 3:
+//! * `gate` no longer depends on error TEXT. The harness keeps its own ghost bookkeeping (ids it saw appear as the result of
+//!   its own mint calls, what it burned, how many mints succeeded, who owns what) and computes BEFORE the call whether the
+//!   supply guards must reject it (`ghost_rejects`, the Rust twin of `LP.Supply.*.supplyRejects`). `gate = ok || ghost_rejects`:
+//!   a failure the ghost attributes to supply must be a failure of the model too (`C01_supplyRejects_sound`); any other failure
+//!   is a closed gate (the model fails trivially, the state must be unchanged). Error texts survive only in the DRIFT field `sup=`.
+//! * the minted id is the set difference of the collection's `AllTokens` after/before the call, not an event attribute.
+//! * raw state is read through the crates' typed `state::` constants (`MINTABLE_TOKEN_POSITIONS`, `TOKEN_INDEX`).
+//! * output lines are `primary ## drift` (owners, reported id attribute, error-text class are drift).
+//! * the message surface is enumerated at RUN TIME from the crates' JSON schemas (`schema_for!(ExecuteMsg)`, `sg4::SudoMsg`):
+//!   every variant must have been sent (coverage floor `sent:<kind>:<variant>;`), variants this file has no named op for are
+//!   sent as raw JSON built from the schema (`noise what=x:<variant>`), under the full observation vector and all monitors.
+use cosmwasm_std::{Addr, Order, Storage};
 use lp_harness::minters::*;
 use lp_harness::world::{addr, addr_id};
 use lp_harness::*;
-use serde_json::{json, Value};
+use serde_json::{json, Map, Value};
 use sha2::{Digest, Sha256};
 use std::collections::{BTreeMap, BTreeSet};
 
@@ -94,6 +107,242 @@ fn merkle(leaves: &[String]) -> (String, Vec<Vec<String>>) {
     (hex::encode(level[0]), proofs)
 }
 
+// ------------------------------------------------------------------------------------------------ run-time message surface (JSON schemas of the crates)
+
+/// message variants this file has a NAMED op for (everything else found in a schema is sent as raw JSON, `noise what=x:<v>`)
+const KNOWN_EXEC: [&str; 15] = [
+    "mint", "mint_to", "mint_for", "shuffle", "purge", "burn_remaining", "receive_nft", "set_whitelist", "update_mint_price", "update_start_time",
+    "update_end_time", "update_start_trading_time", "update_per_address_limit", "update_discount_price", "remove_discount_price",
+];
+const KNOWN_SUDO: [&str; 1] = ["update_status"];
+
+fn exec_schema(kind: MinterKind) -> Value {
+    use cosmwasm_schema::schema_for;
+    let r = match kind {
+        MinterKind::Vending => schema_for!(vending_minter::msg::ExecuteMsg),
+        MinterKind::VendingFeatured => schema_for!(vending_minter_featured::msg::ExecuteMsg),
+        MinterKind::VendingFlex => schema_for!(vending_minter_wl_flex::msg::ExecuteMsg),
+        MinterKind::VendingFlexFeatured => schema_for!(vending_minter_wl_flex_featured::msg::ExecuteMsg),
+        MinterKind::VendingMerkle => schema_for!(vending_minter_merkle_wl::msg::ExecuteMsg),
+        MinterKind::VendingMerkleFeatured => schema_for!(vending_minter_merkle_wl_featured::msg::ExecuteMsg),
+        MinterKind::OpenEdition => schema_for!(open_edition_minter::msg::ExecuteMsg),
+        MinterKind::OpenEditionFlex => schema_for!(open_edition_minter_wl_flex::msg::ExecuteMsg),
+        MinterKind::OpenEditionMerkle => schema_for!(open_edition_minter_merkle_wl::msg::ExecuteMsg),
+        MinterKind::TokenMerge => schema_for!(token_merge_minter::msg::ExecuteMsg),
+        MinterKind::Base => schema_for!(base_minter::msg::ExecuteMsg),
+    };
+    serde_json::to_value(&r).expect("schema to json")
+}
+fn sudo_schema() -> Value {
+    serde_json::to_value(&cosmwasm_schema::schema_for!(sg4::SudoMsg)).expect("schema to json")
+}
+
+/// (variant name in snake case, schema of its payload; None for a unit variant serialised as a bare string)
+fn schema_variants(root: &Value) -> Vec<(String, Option<Value>)> {
+    let mut out = vec![];
+    let mut alts: Vec<Value> = vec![];
+    for k in ["oneOf", "anyOf"] {
+        if let Some(a) = root[k].as_array() {
+            alts.extend(a.iter().cloned());
+        }
+    }
+    if alts.is_empty() {
+        alts.push(root.clone());
+    }
+    for alt in alts {
+        if let Some(en) = alt["enum"].as_array() {
+            for e in en {
+                if let Some(s) = e.as_str() {
+                    out.push((s.to_string(), None));
+                }
+            }
+        } else if let Some(req) = alt["required"].as_array() {
+            if let Some(name) = req.first().and_then(|x| x.as_str()) {
+                out.push((name.to_string(), Some(alt["properties"][name].clone())));
+            }
+        }
+    }
+    out.sort_by(|a, b| a.0.cmp(&b.0));
+    out.dedup_by(|a, b| a.0 == b.0);
+    out
+}
+
+/// minimal JSON value for a schema: integers = k, strings = k (or an address when the field name looks like one), options = null
+fn fill(s: &Value, defs: &Value, k: u64, hint: &str, depth: u32) -> Value {
+    if depth > 8 {
+        return Value::Null;
+    }
+    if let Some(r) = s["$ref"].as_str() {
+        let name = r.rsplit('/').next().unwrap_or("");
+        return fill(&defs[name], defs, k, hint, depth + 1);
+    }
+    if let Some(a) = s["allOf"].as_array() {
+        if let Some(f) = a.first() {
+            return fill(f, defs, k, hint, depth + 1);
+        }
+    }
+    for key in ["anyOf", "oneOf"] {
+        if let Some(a) = s[key].as_array() {
+            if a.iter().any(|x| x["type"] == "null") {
+                return Value::Null;
+            }
+            if let Some(f) = a.first() {
+                if let Some(req) = f["required"].as_array().and_then(|r| r.first()).and_then(|x| x.as_str()) {
+                    let mut m = Map::new();
+                    m.insert(req.to_string(), fill(&f["properties"][req], defs, k, req, depth + 1));
+                    return Value::Object(m);
+                }
+                return fill(f, defs, k, hint, depth + 1);
+            }
+        }
+    }
+    if let Some(en) = s["enum"].as_array() {
+        return en.first().cloned().unwrap_or(Value::Null);
+    }
+    let ty: String = match &s["type"] {
+        Value::String(t) => t.clone(),
+        Value::Array(ts) => {
+            if ts.iter().any(|t| t == "null") {
+                return Value::Null;
+            }
+            ts.first().and_then(|t| t.as_str()).unwrap_or("").to_string()
+        }
+        _ => String::new(),
+    };
+    match ty.as_str() {
+        "integer" | "number" => json!(k),
+        "string" => {
+            let h = hint.to_lowercase();
+            if ["addr", "recipient", "whitelist", "contract", "owner", "sender", "admin"].iter().any(|w| h.contains(w)) {
+                json!(addr(BUYER0))
+            } else {
+                json!(k.to_string())
+            }
+        }
+        "boolean" => json!(k % 2 == 1),
+        "array" => json!([]),
+        "object" => {
+            let mut m = Map::new();
+            if let Some(req) = s["required"].as_array() {
+                for r in req.iter().filter_map(|x| x.as_str()) {
+                    m.insert(r.to_string(), fill(&s["properties"][r], defs, k, r, depth + 1));
+                }
+            }
+            Value::Object(m)
+        }
+        _ => Value::Null,
+    }
+}
+
+/// raw message for a variant found in a schema
+fn raw_variant_msg(root: &Value, name: &str, k: u64) -> Option<Value> {
+    let defs = &root["definitions"];
+    schema_variants(root).into_iter().find(|(n, _)| n == name).map(|(n, sch)| match sch {
+        None => Value::String(n),
+        Some(s) => {
+            let mut m = Map::new();
+            m.insert(n.clone(), fill(&s, defs, k, &n, 0));
+            Value::Object(m)
+        }
+    })
+}
+
+fn top_key(msg: &Value) -> String {
+    match msg {
+        Value::String(s) => s.clone(),
+        Value::Object(m) => m.keys().next().cloned().unwrap_or_default(),
+        _ => String::new(),
+    }
+}
+
+// ------------------------------------------------------------------------------------------------ "one model for seven crates": source fingerprint (diagnostic only)
+
+const FIXED_CRATES: [&str; 7] = [
+    "vending-minter", "vending-minter-featured", "vending-minter-wl-flex", "vending-minter-wl-flex-featured", "vending-minter-merkle-wl", "vending-minter-merkle-wl-featured", "token-merge-minter",
+];
+/// (function, expected equality pattern over FIXED_CRATES on the tree the model was written against)
+const SOURCE_PATTERNS: [(&str, [u8; 7]); 6] = [
+    ("execute_shuffle", [0, 0, 0, 0, 0, 0, 1]),          // token-merge reads the fee from un-nested factory params
+    ("execute_burn_remaining", [0, 0, 0, 0, 0, 0, 0]),
+    ("execute_purge", [0, 0, 1, 1, 0, 0, 0]),            // the flex variants also clear WHITELIST_MINTER_ADDRS
+    ("random_token_list", [0, 0, 0, 0, 0, 0, 0]),
+    ("random_mintable_token_mapping", [0, 0, 0, 0, 0, 0, 0]),
+    ("_execute_mint", [0, 0, 0, 0, 0, 0, 1]),            // supply statements only; token-merge has no payment block in between
+];
+
+fn fn_body(src: &str, name: &str) -> Option<String> {
+    let pat = format!("fn {name}(");
+    let start = src.find(&pat)?;
+    let b = src.as_bytes();
+    let mut j = start + pat.len() - 1;
+    let mut pd = 0i32;
+    loop {
+        match *b.get(j)? {
+            b'(' => pd += 1,
+            b')' => pd -= 1,
+            b'{' if pd == 0 => break,
+            _ => {}
+        }
+        j += 1;
+    }
+    let open = j;
+    let mut depth = 0i32;
+    loop {
+        match *b.get(j)? {
+            b'{' => depth += 1,
+            b'}' => {
+                depth -= 1;
+                if depth == 0 {
+                    break;
+                }
+            }
+            _ => {}
+        }
+        j += 1;
+    }
+    Some(src[open..=j].to_string())
+}
+fn strip_line_comments(t: &str) -> String {
+    t.lines().map(|l| l.split("//").next().unwrap_or("")).collect::<Vec<_>>().join("\n")
+}
+/// re-does the normalised comparison of the supply functions of the 7 fixed-supply crates; a copy that diverged from its
+/// siblings in a NEW way is reported as a DRIFT line (never a failure: the harness visits every kind anyway)
+fn source_divergence() -> Vec<String> {
+    let repo = std::env::var("VERIF_REPO").unwrap_or_else(|_| "/repo".into());
+    let mut out = vec![];
+    let srcs: Vec<Option<String>> = FIXED_CRATES.iter().map(|c| std::fs::read_to_string(format!("{repo}/contracts/minters/{c}/src/contract.rs")).ok()).collect();
+    for (f, want) in SOURCE_PATTERNS {
+        let mut norm: Vec<String> = vec![];
+        for s in &srcs {
+            let body = s.as_ref().and_then(|s| fn_body(s, f)).map(|b| strip_line_comments(&b)).unwrap_or_default();
+            let body = if f == "_execute_mint" {
+                body.split(';')
+                    .filter(|st| ["MINTABLE_NUM_TOKENS", "MINTABLE_TOKEN_POSITIONS", "SoldOut", "InvalidTokenId", "TokenIdAlreadySold", "random_mintable_token_mapping", "position"].iter().any(|w| st.contains(w)))
+                    .collect::<Vec<_>>()
+                    .join(";")
+            } else {
+                body
+            };
+            norm.push(body.chars().filter(|c| !c.is_whitespace()).collect());
+        }
+        let mut firsts: Vec<&String> = vec![];
+        let got: Vec<u8> = norm
+            .iter()
+            .map(|n| match firsts.iter().position(|x| *x == n) {
+                Some(i) => i as u8,
+                None => {
+                    firsts.push(n);
+                    (firsts.len() - 1) as u8
+                }
+            })
+            .collect();
+        if got != want || norm.iter().any(|n| n.is_empty()) {
+            out.push(format!("{f}: equality pattern over {:?} is {:?}, was {:?}", FIXED_CRATES, got, want));
+        }
+    }
+    out
+}
+
 // ------------------------------------------------------------------------------------------------ the system under test
 
 struct S {
@@ -102,26 +351,65 @@ struct S {
     factory: String,
     minter: String,
     coll: String,
+    spare_wl: Option<String>,
     src: Vec<(String, String)>, // token-merge: (base minter, collection); [0] listed in mint_tokens, [1] not
     proofs: BTreeMap<u64, Vec<String>>,
-    // ---- monitor trace (independent of the model)
-    seen: BTreeSet<u64>,
-    burned: u64,
-    successes: u64,
+    exec_root: Value,
+    sudo_root: Value,
+    // ---- ghost bookkeeping: facts the harness knows on its own (what it sent, what it saw appear as the result of ITS mint calls)
+    seen: BTreeSet<u64>,          // fixed: ids minted so far
+    burned: u64,                  // fixed: ids removed by a successful BurnRemaining
+    successes: u64,               // seq: successful mints
     last_seq: u64,
     burn_done: bool,
     cap: Option<u64>,
+    owners: BTreeMap<u64, u64>,   // token id -> owner, from mints / transfers / burns the harness itself performed
+    dep_pending: BTreeMap<u64, u32>, // token-merge: accepted deposits per recipient since its last merge
+    has_wl: bool,
     viol: Option<(String, String)>,
-    // ---- last observation (for the generator)
+    // ---- last observation
     pos: Vec<(u64, u64)>,
     m: Option<u64>,
     toks: Vec<(u64, u64)>,
+    cnt: u64,
+    minter_part: String,
+    coll_part: String,
     last_pick: Option<(usize, usize)>, // (index from front, map length before)
+    // ---- for the generator
+    sent: Vec<String>,
+    eff_surprises: u64,
 }
 
-fn is_supply_error(e: &str) -> bool {
+/// error TEXT classification — used ONLY for the drift field `sup=` (never for agreement)
+fn is_supply_text(e: &str) -> bool {
     let l = e.to_lowercase();
-    l.contains("sold out") || l.contains("already sold") || l.contains("invalid token id") || l.contains("already claimed") || l.starts_with("panic")
+    l.contains("sold out") || l.contains("already sold") || l.contains("invalid token id") || l.contains("already claimed")
+}
+
+macro_rules! by_fixed_kind {
+    ($kind:expr, $m:ident, $st:expr) => {
+        match $kind {
+            MinterKind::Vending => $m!(vending_minter, $st),
+            MinterKind::VendingFeatured => $m!(vending_minter_featured, $st),
+            MinterKind::VendingFlex => $m!(vending_minter_wl_flex, $st),
+            MinterKind::VendingFlexFeatured => $m!(vending_minter_wl_flex_featured, $st),
+            MinterKind::VendingMerkle => $m!(vending_minter_merkle_wl, $st),
+            MinterKind::VendingMerkleFeatured => $m!(vending_minter_merkle_wl_featured, $st),
+            MinterKind::TokenMerge => $m!(token_merge_minter, $st),
+            _ => vec![],
+        }
+    };
+}
+macro_rules! mt_of {
+    ($krate:ident, $st:expr) => {
+        $krate::state::MINTABLE_TOKEN_POSITIONS
+            .range($st, None, None, Order::Ascending)
+            .map(|r| match r {
+                Ok((p, id)) => (p as u64, id as u64),
+                Err(_) => (u64::MAX, u64::MAX),
+            })
+            .collect::<Vec<(u64, u64)>>()
+    };
 }
 
 impl S {
@@ -132,19 +420,30 @@ impl S {
             factory: String::new(),
             minter: String::new(),
             coll: String::new(),
+            spare_wl: None,
             src: vec![],
             proofs: BTreeMap::new(),
+            exec_root: Value::Null,
+            sudo_root: sudo_schema(),
             seen: BTreeSet::new(),
             burned: 0,
             successes: 0,
             last_seq: 0,
             burn_done: false,
             cap: None,
+            owners: BTreeMap::new(),
+            dep_pending: BTreeMap::new(),
+            has_wl: false,
             viol: None,
             pos: vec![],
             m: None,
             toks: vec![],
+            cnt: 0,
+            minter_part: String::new(),
+            coll_part: String::new(),
             last_pick: None,
+            sent: vec![],
+            eff_surprises: 0,
         }
     }
     fn w(&self) -> &World {
@@ -152,6 +451,16 @@ impl S {
     }
     fn wm(&mut self) -> &mut World {
         self.w.as_mut().unwrap()
+    }
+
+    fn wl_kind(kind: MinterKind) -> WlKind {
+        if kind.is_flex() {
+            WlKind::Flex
+        } else if kind.is_merkle() {
+            WlKind::Merkle
+        } else {
+            WlKind::Plain
+        }
     }
 
     fn build(&mut self, cfg: &Cfg) -> Result<(), String> {
@@ -169,25 +478,20 @@ impl S {
         for b in 0..n_buyers {
             w.fund(&addr(BUYER0 + b), 0, 1_000_000_000_000);
         }
+        // whitelist arguments (the same for the configured whitelist and for the spare one a SetWhitelist switches to)
         self.proofs.clear();
+        let members: Vec<(u64, u32)> = (0..N_WL_MEMBERS).map(|i| (BUYER0 + i, WL_LIMIT)).collect();
+        let leaves: Vec<String> = members.iter().map(|(m, _)| addr(*m)).collect();
+        let (root, proofs) = merkle(&leaves);
+        for (i, (m, _)) in members.iter().enumerate() {
+            self.proofs.insert(*m, proofs[i].clone());
+        }
+        let st = WlStage { start: WL_START, end: WL_END, mint_price: (0, WL_PRICE), per_address_limit: WL_LIMIT, mint_count_limit: None, members, merkle_root: root };
+        let wl_args = WlArgs { admin: WL_ADMIN, member_limit: 1000, admins_mutable: true, whale_cap: None, stages: vec![st] };
+        let takes_wl = kind.is_vending() || kind.is_open_edition();
         let mut wl_addr = None;
-        if cfg.wl {
-            let members: Vec<(u64, u32)> = (0..N_WL_MEMBERS).map(|i| (BUYER0 + i, WL_LIMIT)).collect();
-            let wk = if kind.is_flex() {
-                WlKind::Flex
-            } else if kind.is_merkle() {
-                WlKind::Merkle
-            } else {
-                WlKind::Plain
-            };
-            let leaves: Vec<String> = members.iter().map(|(m, _)| addr(*m)).collect();
-            let (root, proofs) = merkle(&leaves);
-            for (i, (m, _)) in members.iter().enumerate() {
-                self.proofs.insert(*m, proofs[i].clone());
-            }
-            let st = WlStage { start: WL_START, end: WL_END, mint_price: (0, WL_PRICE), per_address_limit: WL_LIMIT, mint_count_limit: None, members, merkle_root: root };
-            let a = WlArgs { admin: WL_ADMIN, member_limit: 1000, admins_mutable: true, whale_cap: None, stages: vec![st] };
-            wl_addr = Some(w.new_whitelist(wk, &a)?);
+        if cfg.wl && takes_wl {
+            wl_addr = Some(w.new_whitelist(Self::wl_kind(kind), &wl_args)?);
         }
         self.src.clear();
         let mut a = w.default_create(kind, &p);
@@ -215,29 +519,37 @@ impl S {
             }
         }
         let (m, c) = w.create_minter(&factory, kind, &a)?;
+        // created AFTER the minter so that the minter / collection addresses do not depend on it
+        self.spare_wl = if takes_wl { Some(w.new_whitelist(Self::wl_kind(kind), &wl_args)?) } else { None };
+        self.has_wl = cfg.wl && takes_wl;
         self.factory = factory;
         self.minter = m;
         self.coll = c;
         self.w = Some(w);
+        self.exec_root = exec_schema(kind);
         Ok(())
     }
 
     // ---------------------------------------------------------------- observations
 
+    /// `MINTABLE_TOKEN_POSITIONS` through the crate's own typed constant
     fn mt_dump(&self) -> Vec<(u64, u64)> {
-        let mut v = vec![];
-        for (k, val) in self.w().dump(&self.minter) {
-            if k.len() == 8 && &k[..4] == b"\x00\x02mt" {
-                let p = u32::from_be_bytes([k[4], k[5], k[6], k[7]]) as u64;
-                let id: u64 = String::from_utf8_lossy(&val).trim().parse().unwrap_or(u64::MAX);
-                v.push((p, id));
-            }
-        }
-        v.sort();
-        v
+        let st = self.w().app.contract_storage(&Addr::unchecked(&self.minter));
+        let st: &dyn Storage = &*st;
+        by_fixed_kind!(self.cfg.kind, mt_of, st)
     }
-    fn raw_item(&self, key: &[u8]) -> Option<u64> {
-        self.w().dump(&self.minter).into_iter().find(|(k, _)| k.as_slice() == key).and_then(|(_, v)| String::from_utf8_lossy(&v).trim().parse().ok())
+    /// `TOKEN_INDEX` through the crate's own typed constant
+    fn token_index(&self) -> u64 {
+        let st = self.w().app.contract_storage(&Addr::unchecked(&self.minter));
+        let st: &dyn Storage = &*st;
+        let r = match self.cfg.kind {
+            MinterKind::OpenEdition => open_edition_minter::state::TOKEN_INDEX.may_load(st),
+            MinterKind::OpenEditionFlex => open_edition_minter_wl_flex::state::TOKEN_INDEX.may_load(st),
+            MinterKind::OpenEditionMerkle => open_edition_minter_merkle_wl::state::TOKEN_INDEX.may_load(st),
+            MinterKind::Base => base_minter::state::TOKEN_INDEX.may_load(st),
+            _ => Ok(None),
+        };
+        r.ok().flatten().unwrap_or(0)
     }
     fn q_count(&self, contract: &str, msg: Value) -> Option<u64> {
         self.w().query(contract, &msg).ok().and_then(|v| v["count"].as_u64())
@@ -269,9 +581,6 @@ impl S {
         toks.sort();
         (cnt, toks)
     }
-    fn owner_of(&self, id: u64) -> Option<u64> {
-        self.w().query(&self.coll, &json!({"owner_of":{"token_id": id.to_string()}})).ok().and_then(|v| v["owner"].as_str().map(addr_id))
-    }
     fn mintable(&self) -> Option<u64> {
         if self.cfg.kind == MinterKind::Base {
             None
@@ -279,28 +588,27 @@ impl S {
             self.q_count(&self.minter, json!({"mintable_num_tokens":{}}))
         }
     }
-    /// canonical observation vector; also refreshes the cached state used by generators and monitors
-    fn obs(&mut self) -> String {
+    /// refreshes the cached observation; `minter_part` + `coll_part` = the PRIMARY part of an output line
+    fn obs(&mut self) {
         let (cnt, toks) = self.coll_obs();
-        let s = if self.cfg.fixed {
+        if self.cfg.fixed {
             let pos = self.mt_dump();
             let m = self.mintable();
-            let s = format!("m={} pos={} cnt={} toks={}", fmt_opt(&m), fmt_pairs(&pos), cnt, fmt_pairs(&toks));
+            self.minter_part = format!("m={} pos={}", fmt_opt(&m), fmt_pairs(&pos));
             self.pos = pos;
             self.m = m;
-            s
         } else {
-            let idx = self.raw_item(b"token_index").unwrap_or(0);
-            let (total, m) = if self.cfg.kind == MinterKind::Base {
-                (None, None)
-            } else {
-                (self.q_count(&self.minter, json!({"total_mint_count":{}})), self.mintable())
-            };
+            let idx = self.token_index();
+            let (total, m) = if self.cfg.kind == MinterKind::Base { (None, None) } else { (self.q_count(&self.minter, json!({"total_mint_count":{}})), self.mintable()) };
             self.m = m;
-            format!("idx={} total={} m={} cnt={} toks={}", idx, fmt_opt(&total), fmt_opt(&m), cnt, fmt_pairs(&toks))
-        };
+            self.minter_part = format!("idx={} total={} m={}", idx, fmt_opt(&total), fmt_opt(&m));
+        }
+        self.coll_part = format!("cnt={} ids={}", cnt, fmt_list(&toks.iter().map(|x| x.0).collect::<Vec<_>>()));
+        self.cnt = cnt;
         self.toks = toks;
-        s
+    }
+    fn render(&self, ok: bool, idpart: &str, rep: &str, sup: &str) -> String {
+        format!("{} {}{} {} ## own={} rep={} sup={}", if ok { "ok" } else { "err" }, idpart, self.minter_part, self.coll_part, fmt_pairs(&self.toks), rep, sup)
     }
 
     fn current_price(&self) -> u128 {
@@ -313,20 +621,7 @@ impl S {
         }
     }
 
-    /// token id minted in OUR collection during this response (from the collection's own `mint` event)
-    fn minted_id(&self, r: &cw_multi_test::AppResponse) -> Option<u64> {
-        for e in &r.events {
-            if e.ty != "wasm" {
-                continue;
-            }
-            let get = |k: &str| e.attributes.iter().find(|a| a.key == k).map(|a| a.value.clone());
-            if get("_contract_address").or(get("_contract_addr")).as_deref() == Some(self.coll.as_str()) && get("action").as_deref() == Some("mint") {
-                return get("token_id").and_then(|s| s.parse().ok());
-            }
-        }
-        None
-    }
-    /// `token_id` attribute of the MINTER's own response (absent for base-minter)
+    /// `token_id` attribute of the MINTER's own response — DRIFT field only (absent for base-minter)
     fn reported_id(&self, r: &cw_multi_test::AppResponse) -> Option<u64> {
         for e in &r.events {
             if e.ty != "wasm" {
@@ -345,6 +640,49 @@ impl S {
             MinterKind::Base => json!({"mint":{"token_uri":"ipfs://base/x"}}),
             k if k.is_merkle() => json!({"mint":{"proof_hashes": self.proofs.get(&who).cloned(), "stage": null, "allocation": null}}),
             _ => json!({"mint":{}}),
+        }
+    }
+
+    /// every message delivered to the minter goes through here: the variant name is logged for the surface coverage floor
+    fn to_minter(&mut self, who: u64, msg: &Value, funds: &[(u64, u128)]) -> Result<cw_multi_test::AppResponse, String> {
+        self.sent.push(top_key(msg));
+        let m = self.minter.clone();
+        self.wm().exec(&addr(who), &m, msg, funds)
+    }
+
+    // ---------------------------------------------------------------- ghost: must the SUPPLY guards reject this op? (twin of LP.Supply.*.supplyRejects)
+
+    fn ghost_mintable_fixed(&self) -> u64 {
+        (self.cfg.n.unwrap_or(0) as u64).saturating_sub(self.seen.len() as u64 + self.burned)
+    }
+    fn ghost_mintable_seq(&self) -> Option<u64> {
+        self.cap.map(|c| if self.burn_done { 0 } else { c.saturating_sub(self.successes) })
+    }
+    fn ghost_rejects(&self, op: &str, line: &str, eff_expected: bool) -> bool {
+        let id = kv_u64(line, "id").unwrap_or(0);
+        match op {
+            "coll_burn" | "coll_transfer" | "coll_send" => return !self.owners.contains_key(&id),
+            "noise" | "t" => return false,
+            _ => {}
+        }
+        if self.cfg.fixed {
+            let gm = self.ghost_mintable_fixed();
+            match op {
+                "mint" | "mint_to" | "shuffle" | "burn_remaining" => gm == 0,
+                "deposit" => eff_expected && gm == 0,
+                "mint_for" => gm == 0 || id == 0 || id > self.cfg.n.unwrap_or(0) as u64 || self.seen.contains(&id),
+                "purge" => gm != 0,
+                _ => false,
+            }
+        } else {
+            let gm = self.ghost_mintable_seq();
+            let kind = self.cfg.kind;
+            match op {
+                "mint" | "mint_to" => gm == Some(0),
+                "burn_remaining" => kind == MinterKind::Base || gm.is_none() || gm == Some(0),
+                "purge" => kind == MinterKind::Base || (matches!(gm, Some(k) if k > 0) && (kind == MinterKind::OpenEditionFlex || !self.cfg.has_end)),
+                _ => false,
+            }
         }
     }
 }
@@ -366,6 +704,8 @@ impl Sut for S {
         self.successes = 0;
         self.last_seq = 0;
         self.burn_done = false;
+        self.owners.clear();
+        self.dep_pending.clear();
         self.viol = None;
         self.last_pick = None;
         self.cap = match (cfg.fixed, cfg.kind, cfg.n) {
@@ -379,182 +719,291 @@ impl Sut for S {
         if let Err(e) = self.build(&cfg) {
             panic!("world setup failed for `{header}`: {e}");
         }
-        let o = self.obs();
+        self.obs();
         let line = if cfg.fixed { format!("{header} init={}", fmt_list(&self.pos.iter().map(|x| x.1).collect::<Vec<_>>())) } else { header.to_string() };
-        (line, format!("case ok {o}"))
+        (line, format!("case {}", self.render(true, "", "-", "-")))
     }
 
     fn exec(&mut self, line: &str) -> (String, String) {
         let op = line.split_whitespace().next().unwrap_or("").to_string();
         let who = kv_u64(line, "who").unwrap_or(ADMIN);
         let pay = kv_u128(line, "pay").unwrap_or(0);
-        let _kind = self.cfg.kind;
-        let minter = self.minter.clone();
         let coll = self.coll.clone();
         let pos_before = self.pos.clone();
         let m_before = self.m;
+        let ids_before: BTreeSet<u64> = self.toks.iter().map(|x| x.0).collect();
+        let minter_before = self.minter_part.clone();
+        let coll_before = self.coll_part.clone();
         self.last_pick = None;
-        let mut wit = String::new();
-        let mut idpart = String::new();
-        let ok: bool;
-        match op.as_str() {
+        let is_mint_op = matches!(op.as_str(), "mint" | "mint_to" | "mint_for" | "deposit");
+        let to = kv_opt_u64(line, "to").unwrap_or(None);
+        let owner = to.unwrap_or(who);
+        let req = kv_u64(line, "id");
+        // token-merge: does the harness' own deposit bookkeeping say this deposit completes a merge?
+        let eff_expected = op == "deposit" && kv_u64(line, "coll").unwrap_or(0) == 0 && self.dep_pending.get(&owner).copied().unwrap_or(0) + 1 >= self.cfg.need;
+        let ghost_rej = self.ghost_rejects(&op, line, eff_expected);
+        let ghost_m_before = if self.cfg.fixed { Some(self.ghost_mintable_fixed()) } else { self.ghost_mintable_seq() };
+        let opkey: String = if op == "noise" { format!("noise-{}", kv(line, "what").unwrap_or("?")) } else { op.clone() };
+
+        // ---------------------------------------------------------------- the call
+        let r: Result<cw_multi_test::AppResponse, String> = match op.as_str() {
             "t" => {
                 let ns = kv_u64(line, "ns").unwrap();
                 self.wm().set_time(ns);
-                ok = true;
+                Ok(cw_multi_test::AppResponse::default())
             }
-            "mint" | "mint_to" | "mint_for" | "deposit" => {
-                let to = kv_opt_u64(line, "to").unwrap_or(None);
-                let owner = to.unwrap_or(who);
-                let req = kv_u64(line, "id");
-                let r = match op.as_str() {
-                    "mint" => {
-                        let msg = self.mint_msg(who);
-                        self.wm().exec(&addr(who), &minter, &msg, &funds(pay))
+            "mint" => {
+                let msg = self.mint_msg(who);
+                self.to_minter(who, &msg, &funds(pay))
+            }
+            "mint_to" => self.to_minter(who, &json!({"mint_to":{"recipient": addr(owner)}}), &funds(pay)),
+            "mint_for" => self.to_minter(who, &json!({"mint_for":{"token_id": req.unwrap_or(0), "recipient": addr(owner)}}), &funds(pay)),
+            "deposit" => {
+                let ci = kv_u64(line, "coll").unwrap_or(0) as usize;
+                let src_coll = self.src.get(ci).map(|x| x.1.clone()).unwrap_or_else(|| coll.clone());
+                let inner = json!({"deposit_token":{"recipient": to.map(addr)}});
+                let b64 = cosmwasm_std::to_json_binary(&inner).unwrap();
+                let msg = json!({"send_nft":{"contract": self.minter, "token_id": kv_u64(line, "src").unwrap_or(0).to_string(), "msg": b64}});
+                self.sent.push("receive_nft".into());
+                self.wm().exec(&addr(who), &src_coll, &msg, &[])
+            }
+            "shuffle" => self.to_minter(who, &json!({"shuffle":{}}), &funds(pay)),
+            "purge" => self.to_minter(who, &json!({"purge":{}}), &funds(pay)),
+            "burn_remaining" => self.to_minter(who, &json!({"burn_remaining":{}}), &funds(pay)),
+            "coll_burn" => self.wm().exec(&addr(who), &coll, &json!({"burn":{"token_id": req.unwrap_or(0).to_string()}}), &[]),
+            "coll_transfer" => {
+                let to = to.unwrap_or(STRANGER);
+                self.wm().exec(&addr(who), &coll, &json!({"transfer_nft":{"recipient": addr(to), "token_id": req.unwrap_or(0).to_string()}}), &[])
+            }
+            "coll_send" => {
+                // a holder sends a token to a contract (`to=` must be a contract id, 1000+k): the minter itself, normally
+                let target = addr(to.unwrap_or(addr_id(&self.minter)));
+                let b64 = cosmwasm_std::to_json_binary(&json!({"deposit_token":{"recipient": null}})).unwrap();
+                self.wm().exec(&addr(who), &coll, &json!({"send_nft":{"contract": target, "token_id": req.unwrap_or(0).to_string(), "msg": b64}}), &[])
+            }
+            "noise" => {
+                let arg = kv_u128(line, "arg").unwrap_or(0);
+                let what = kv(line, "what").unwrap_or("").to_string();
+                match what.as_str() {
+                    "pal" => self.to_minter(who, &json!({"update_per_address_limit":{"per_address_limit": arg as u32}}), &[]),
+                    "price" => self.to_minter(who, &json!({"update_mint_price":{"price": arg.to_string()}}), &[]),
+                    "start" => self.to_minter(who, &json!({"update_start_time": arg.to_string()}), &[]),
+                    "end" => self.to_minter(who, &json!({"update_end_time": arg.to_string()}), &[]),
+                    "tstart" => self.to_minter(who, &json!({"update_start_trading_time": if arg == 0 { Value::Null } else { Value::String(arg.to_string()) }}), &[]),
+                    "setwl" => {
+                        let wl = self.spare_wl.clone().unwrap_or_else(|| addr(STRANGER));
+                        let r = self.to_minter(who, &json!({"set_whitelist":{"whitelist": wl}}), &[]);
+                        if r.is_ok() {
+                            self.has_wl = true;
+                        }
+                        r
                     }
-                    "mint_to" => self.wm().exec(&addr(who), &minter, &json!({"mint_to":{"recipient": addr(owner)}}), &funds(pay)),
-                    "mint_for" => self.wm().exec(&addr(who), &minter, &json!({"mint_for":{"token_id": req.unwrap_or(0), "recipient": addr(owner)}}), &funds(pay)),
-                    _ => {
-                        let ci = kv_u64(line, "coll").unwrap_or(0) as usize;
-                        let src_coll = self.src.get(ci).map(|x| x.1.clone()).unwrap_or_else(|| coll.clone());
-                        let inner = json!({"deposit_token":{"recipient": to.map(addr)}});
-                        let b64 = cosmwasm_std::to_json_binary(&inner).unwrap();
-                        let msg = json!({"send_nft":{"contract": minter, "token_id": kv_u64(line, "src").unwrap_or(0).to_string(), "msg": b64}});
-                        self.wm().exec(&addr(who), &src_coll, &msg, &[])
+                    "disc" => self.to_minter(who, &json!({"update_discount_price":{"price": arg.to_string()}}), &[]),
+                    "rmdisc" => self.to_minter(who, &json!({"remove_discount_price":{}}), &[]),
+                    "status" => {
+                        let m = self.minter.clone();
+                        self.sent.push("sudo:update_status".into());
+                        self.wm().sudo(&m, &json!({"update_status":{"is_verified": arg & 1 == 1, "is_blocked": arg & 2 == 2, "is_explicit": arg & 4 == 4}}))
                     }
-                };
-                ok = r.is_ok();
-                let gate = match &r {
-                    Ok(_) => true,
-                    Err(e) => is_supply_error(e),
-                };
-                let minted = r.as_ref().ok().and_then(|r| self.minted_id(r));
-                let reported = r.as_ref().ok().and_then(|r| self.reported_id(r));
-                let o = self.obs();
-                // ---- witnesses
-                let removed: Vec<u64> = pos_before.iter().filter(|(p, _)| !self.pos.iter().any(|(q, _)| q == p)).map(|x| x.0).collect();
-                let p = if ok && removed.len() == 1 { removed[0] } else { 0 };
-                if self.cfg.fixed && ok && removed.len() == 1 {
-                    self.last_pick = pos_before.iter().position(|(q, _)| *q == p).map(|i| (i, pos_before.len()));
+                    "migrate" => {
+                        // same code id: the crates' `migrate` entry point runs on the live state (wasm admin = the creator)
+                        let m = self.minter.clone();
+                        let code = self.w().codes.minters[self.cfg.kind.idx()];
+                        self.sent.push("migrate".into());
+                        self.wm().migrate(&addr(who), &m, code, &json!({}))
+                    }
+                    "fmax" => {
+                        let f = self.factory.clone();
+                        self.wm().sudo(&f, &json!({"update_params":{"extension":{"max_token_limit": arg as u32}}}))
+                    }
+                    // ---- the collection, addressed directly by somebody who is not the minter
+                    "coll_mint" => self.wm().exec(&addr(who), &coll, &json!({"mint":{"token_id": req.unwrap_or(0).to_string(), "owner": addr(who), "token_uri": null, "extension": null}}), &[]),
+                    "coll_own" => self.wm().exec(&addr(who), &coll, &json!({"update_ownership":{"transfer_ownership":{"new_owner": addr(who), "expiry": null}}}), &[]),
+                    "coll_accept" => self.wm().exec(&addr(who), &coll, &json!({"update_ownership":"accept_ownership"}), &[]),
+                    w if w.starts_with("x:") => match raw_variant_msg(&self.exec_root, &w[2..], arg as u64) {
+                        Some(msg) => self.to_minter(who, &msg, &funds(pay)),
+                        None => Err("no such variant in the schema".into()),
+                    },
+                    w if w.starts_with("sx:") => match raw_variant_msg(&self.sudo_root, &w[3..], arg as u64) {
+                        Some(msg) => {
+                            let m = self.minter.clone();
+                            self.sent.push(format!("sudo:{}", &w[3..]));
+                            self.wm().sudo(&m, &msg)
+                        }
+                        None => Err("no such variant in the schema".into()),
+                    },
+                    _ => Err("unknown noise".into()),
                 }
-                match op.as_str() {
-                    "mint" | "mint_to" => wit = if self.cfg.fixed { format!(" gate={} pos={p} owner={owner}", gate as u8) } else { format!(" gate={} owner={owner}", gate as u8) },
-                    "mint_for" => wit = format!(" gate={} owner={owner}", gate as u8),
-                    _ => {
-                        let eff = if ok { minted.is_some() || !removed.is_empty() } else { gate };
-                        wit = format!(" eff={} gate={} pos={p} owner={owner}", eff as u8, gate as u8);
-                    }
-                }
-                // ---- monitors: direct transcription of the property on the implementation's own trace
-                if let (true, Some(id)) = (ok, minted) {
-                    idpart = format!("id={id} ");
+            }
+            _ => return (line.to_string(), "bad-op".into()),
+        };
+        let ok = r.is_ok();
+        // gate: closed exactly for a failure the harness' own bookkeeping cannot attribute to the supply guards
+        let gate = ok || ghost_rej;
+        self.obs();
+        let ids_after: BTreeSet<u64> = self.toks.iter().map(|x| x.0).collect();
+        let new_ids: Vec<u64> = ids_after.difference(&ids_before).copied().collect();
+        let removed: Vec<u64> = pos_before.iter().filter(|(p, _)| !self.pos.iter().any(|(q, _)| q == p)).map(|x| x.0).collect();
+        let sup = if gate { "-".to_string() } else { (r.as_ref().err().map(|e| is_supply_text(e)).unwrap_or(false) as u8).to_string() };
+        let mut rep = "-".to_string();
+        let mut idpart = String::new();
+        #[allow(unused_assignments)]
+        let mut wit = String::new();
+
+        if op == "t" {
+            if self.minter_part != minter_before || self.coll_part != coll_before {
+                self.flag(&opkey, "supply-state-changed", format!("a clock step changed the supply state: `{minter_before} {coll_before}` -> `{} {}`", self.minter_part, self.coll_part));
+            }
+            self.after_monitors(&opkey);
+            return (line.to_string(), self.render(true, "", "-", "-"));
+        }
+
+        // ---------------------------------------------------------------- token-set monitors common to all ops
+        if !(is_mint_op && ok) && !new_ids.is_empty() {
+            self.flag(&opkey, "token-appeared-without-mint", format!("tokens {:?} appeared in the collection although no mint call of the minter succeeded in this step", new_ids));
+        }
+
+        if is_mint_op {
+            let p = if ok && removed.len() == 1 { removed[0] } else { 0 };
+            if self.cfg.fixed && ok && removed.len() == 1 {
+                self.last_pick = pos_before.iter().position(|(q, _)| *q == p).map(|i| (i, pos_before.len()));
+            }
+            let g = gate as u8;
+            wit = match op.as_str() {
+                "mint" | "mint_to" => {
                     if self.cfg.fixed {
-                        let n = self.cfg.n.unwrap_or(0) as u64;
-                        if id < 1 || id > n {
-                            self.flag(&op, "id-out-of-range", format!("minted token id {id} is not in 1..={n}"));
-                        }
-                        if self.seen.contains(&id) {
-                            self.flag(&op, "duplicate-id", format!("token id {id} minted a second time"));
-                        }
-                        if m_before == Some(0) {
-                            self.flag(&op, "success-at-zero", format!("mint of id {id} succeeded while MintableNumTokens was 0"));
-                        }
-                        if op == "mint_for" {
-                            let own = self.owner_of(id);
-                            if Some(id) != req || reported != req || own != Some(owner) {
-                                self.flag(&op, "mint-for-mismatch", format!("MintFor requested id {:?} for acct {owner}: collection minted {id}, minter reported {:?}, owner now {:?}", req, reported, own));
-                            }
-                        }
-                        self.seen.insert(id);
+                        format!(" gate={g} pos={p} owner={owner}")
                     } else {
-                        if id != self.last_seq + 1 {
-                            self.flag(&op, "gap-or-repeat", format!("sequential id {id} issued after {}", self.last_seq));
+                        format!(" gate={g} owner={owner}")
+                    }
+                }
+                "mint_for" => format!(" gate={g} owner={owner}"),
+                _ => {
+                    let eff = if ok { !new_ids.is_empty() || !removed.is_empty() } else { eff_expected };
+                    if ok {
+                        if eff != eff_expected {
+                            self.eff_surprises += 1; // merge-requirement bookkeeping is C17's business: counted, reported as DRIFT
                         }
-                        if self.burn_done {
-                            self.flag(&op, "mint-after-burn-remaining", format!("id {id} minted after a successful BurnRemaining"));
-                        }
-                        if m_before == Some(0) {
-                            self.flag(&op, "success-at-zero", format!("mint of id {id} succeeded while MintableNumTokens was Some(0)"));
-                        }
-                        self.last_seq = id;
-                        self.successes += 1;
-                        if let Some(c) = self.cap {
-                            if self.successes > c {
-                                self.flag(&op, "supply-above-cap", format!("{} tokens minted, cap is {c}", self.successes));
+                        if kv_u64(line, "coll").unwrap_or(0) == 0 {
+                            if eff {
+                                self.dep_pending.remove(&owner);
+                            } else {
+                                *self.dep_pending.entry(owner).or_insert(0) += 1;
                             }
                         }
                     }
-                } else if ok && op != "deposit" {
-                    self.flag(&op, "mint-without-token", "a mint call succeeded but the collection minted nothing".into());
+                    format!(" eff={} gate={g} pos={p} owner={owner}", eff as u8)
                 }
-                self.after_monitors(&op);
-                return (format!("{line}{wit}"), format!("{} {idpart}{o}", if ok { "ok" } else { "err" }));
-            }
-            "shuffle" => {
-                let r = self.wm().exec(&addr(who), &minter, &json!({"shuffle":{}}), &funds(pay));
-                ok = r.is_ok();
-                let gate = r.as_ref().map(|_| true).unwrap_or_else(|e| is_supply_error(e));
-                let o = self.obs();
-                let perm: Vec<u64> = if ok { self.pos.iter().map(|x| x.1).collect() } else { vec![] };
-                wit = format!(" gate={} perm={}", gate as u8, fmt_list(&perm));
-                if ok {
-                    let mut a: Vec<u64> = pos_before.iter().map(|x| x.1).collect();
-                    let mut b = perm.clone();
-                    a.sort();
-                    b.sort();
-                    let ka: Vec<u64> = pos_before.iter().map(|x| x.0).collect();
-                    let kb: Vec<u64> = self.pos.iter().map(|x| x.0).collect();
-                    if a != b || ka != kb || self.m != m_before {
-                        self.flag(&op, "shuffle-changed-ids", format!("shuffle changed the remaining ids or their number: before {:?} (m={:?}) after {:?} (m={:?})", pos_before, m_before, self.pos, self.m));
-                    }
+            };
+            if ok {
+                if new_ids.len() > 1 {
+                    self.flag(&opkey, "multiple-tokens", format!("one mint call created {} tokens: {:?}", new_ids.len(), new_ids));
                 }
-                self.after_monitors(&op);
-                return (format!("{line}{wit}"), format!("{} {o}", if ok { "ok" } else { "err" }));
+                if new_ids.is_empty() && op != "deposit" {
+                    self.flag(&opkey, "mint-without-token", "a mint call succeeded but no new token exists in the collection".into());
+                }
             }
-            "purge" | "burn_remaining" | "noise" | "coll_burn" | "coll_transfer" => {
-                let r = match op.as_str() {
-                    "purge" => self.wm().exec(&addr(who), &minter, &json!({"purge":{}}), &funds(pay)),
-                    "burn_remaining" => self.wm().exec(&addr(who), &minter, &json!({"burn_remaining":{}}), &funds(pay)),
-                    "coll_burn" => self.wm().exec(&addr(who), &coll, &json!({"burn":{"token_id": kv_u64(line, "id").unwrap_or(0).to_string()}}), &[]),
-                    "coll_transfer" => {
-                        let to = kv_u64(line, "to").unwrap_or(STRANGER);
-                        self.wm().exec(&addr(who), &coll, &json!({"transfer_nft":{"recipient": addr(to), "token_id": kv_u64(line, "id").unwrap_or(0).to_string()}}), &[])
+            if let (true, Some(&id)) = (ok, new_ids.first()) {
+                let own_now = self.toks.iter().find(|t| t.0 == id).map(|t| t.1);
+                idpart = format!("id={id} to={} ", fmt_opt(&own_now));
+                rep = fmt_opt(&r.as_ref().ok().and_then(|r| self.reported_id(r)));
+                if ghost_m_before == Some(0) {
+                    self.flag(&opkey, "success-at-zero", format!("mint of id {id} succeeded although by the harness' own count (minted {}, burned {}, cap {:?}) nothing was left", if self.cfg.fixed { self.seen.len() as u64 } else { self.successes }, self.burned, self.cap));
+                }
+                if m_before == Some(0) {
+                    self.flag(&opkey, "success-at-zero", format!("mint of id {id} succeeded while MintableNumTokens was 0"));
+                }
+                if self.cfg.fixed {
+                    let n = self.cfg.n.unwrap_or(0) as u64;
+                    if id < 1 || id > n {
+                        self.flag(&opkey, "id-out-of-range", format!("minted token id {id} is not in 1..={n}"));
                     }
-                    _ => {
-                        let arg = kv_u128(line, "arg").unwrap_or(0);
-                        match kv(line, "what").unwrap_or("") {
-                            "pal" => self.wm().exec(&addr(who), &minter, &json!({"update_per_address_limit":{"per_address_limit": arg as u32}}), &[]),
-                            "price" => self.wm().exec(&addr(who), &minter, &json!({"update_mint_price":{"price": arg.to_string()}}), &[]),
-                            "start" => self.wm().exec(&addr(who), &minter, &json!({"update_start_time": arg.to_string()}), &[]),
-                            "end" => self.wm().exec(&addr(who), &minter, &json!({"update_end_time": arg.to_string()}), &[]),
-                            "tstart" => self.wm().exec(&addr(who), &minter, &json!({"update_start_trading_time": null}), &[]),
-                            "fmax" => {
-                                let f = self.factory.clone();
-                                let msg = json!({"update_params":{"extension":{"max_token_limit": arg as u32}}});
-                                self.wm().sudo(&f, &msg)
-                            }
-                            _ => Err("unknown noise".into()),
+                    if self.seen.contains(&id) {
+                        self.flag(&opkey, "duplicate-id", format!("token id {id} minted a second time"));
+                    }
+                    if op == "mint_for" && (Some(id) != req || own_now != Some(owner)) {
+                        self.flag(&opkey, "mint-for-mismatch", format!("MintFor requested id {:?} for acct {owner}: the collection now holds new token {id} owned by {:?}", req, own_now));
+                    }
+                    self.seen.insert(id);
+                } else {
+                    if id != self.last_seq + 1 {
+                        self.flag(&opkey, "gap-or-repeat", format!("sequential id {id} issued after {}", self.last_seq));
+                    }
+                    if self.burn_done {
+                        self.flag(&opkey, "mint-after-burn-remaining", format!("id {id} minted after a successful BurnRemaining"));
+                    }
+                    self.last_seq = id;
+                    self.successes += 1;
+                    if let Some(c) = self.cap {
+                        if self.successes > c {
+                            self.flag(&opkey, "supply-above-cap", format!("{} tokens minted, cap is {c}", self.successes));
                         }
                     }
-                };
-                ok = r.is_ok();
-                let gate = match &r {
-                    Ok(_) => true,
-                    Err(e) => is_supply_error(e) || ((op == "coll_burn" || op == "coll_transfer") && e.to_lowercase().contains("not found")),
-                };
-                wit = format!(" gate={}", gate as u8);
-                if ok && op == "burn_remaining" {
-                    self.burn_done = true;
-                    self.burned += pos_before.len() as u64;
                 }
+                if ghost_rej {
+                    self.flag(&opkey, "supply-guard-bypassed", format!("mint of id {id} succeeded although the harness' own bookkeeping says the supply guards had to reject `{line}`"));
+                }
+                self.owners.insert(id, own_now.unwrap_or(owner));
             }
-            _ => {
-                return (line.to_string(), "bad-op".into());
+        } else {
+            match op.as_str() {
+                "shuffle" => {
+                    let perm: Vec<u64> = if ok { self.pos.iter().map(|x| x.1).collect() } else { vec![] };
+                    wit = format!(" gate={} perm={}", gate as u8, fmt_list(&perm));
+                    if ok {
+                        let mut a: Vec<u64> = pos_before.iter().map(|x| x.1).collect();
+                        let mut b = perm.clone();
+                        a.sort();
+                        b.sort();
+                        let ka: Vec<u64> = pos_before.iter().map(|x| x.0).collect();
+                        let kb: Vec<u64> = self.pos.iter().map(|x| x.0).collect();
+                        if a != b || ka != kb || self.m != m_before {
+                            self.flag(&opkey, "shuffle-changed-ids", format!("shuffle changed the remaining ids or their number: before {:?} (m={:?}) after {:?} (m={:?})", pos_before, m_before, self.pos, self.m));
+                        }
+                    }
+                }
+                "burn_remaining" => {
+                    wit = format!(" gate={}", gate as u8);
+                    if ok {
+                        self.burn_done = true;
+                        // everything the harness knows to be left is burned now (independent of the contract's own map)
+                        if self.cfg.fixed {
+                            self.burned += self.ghost_mintable_fixed();
+                        }
+                    }
+                }
+                "coll_burn" | "coll_transfer" | "coll_send" => {
+                    let id = req.unwrap_or(0);
+                    let target = if op == "coll_send" { to.unwrap_or(addr_id(&self.minter)) } else { to.unwrap_or(STRANGER) };
+                    wit = if op == "coll_burn" { format!(" gate={}", gate as u8) } else { format!(" gate={} to={target}", gate as u8) };
+                    if op != "coll_burn" && kv(line, "to").is_some() {
+                        wit = format!(" gate={}", gate as u8); // `to=` is already on the line
+                    }
+                    if ok {
+                        if op == "coll_burn" {
+                            self.owners.remove(&id);
+                        } else {
+                            self.owners.insert(id, target);
+                        }
+                    }
+                    if ok && self.minter_part != minter_before {
+                        self.flag(&opkey, "supply-state-changed", format!("a collection-side call changed the minter's supply state: `{minter_before}` -> `{}`", self.minter_part));
+                    }
+                }
+                _ => {
+                    // purge and every "other message": frame ops
+                    wit = format!(" gate={}", gate as u8);
+                    if ok && (self.minter_part != minter_before || self.coll_part != coll_before) {
+                        self.flag(&opkey, "supply-state-changed", format!("a message that is not a mint / shuffle / burn-remaining changed the supply state: `{minter_before} {coll_before}` -> `{} {}`", self.minter_part, self.coll_part));
+                    }
+                    if ok && matches!(kv(line, "what"), Some("coll_mint") | Some("coll_own") | Some("coll_accept")) {
+                        self.flag(&opkey, "non-minter-call-accepted", format!("the collection accepted `{}` from acct {who}, who is not the minter contract", kv(line, "what").unwrap_or("")));
+                    }
+                }
             }
         }
-        let o = self.obs();
-        self.after_monitors(&op);
-        (format!("{line}{wit}"), format!("{} {o}", if ok { "ok" } else { "err" }))
+        self.after_monitors(&opkey);
+        (format!("{line}{wit}"), self.render(ok, &idpart, &rep, &sup))
     }
 
     fn monitor(&mut self) -> Option<(String, String)> {
@@ -563,8 +1012,11 @@ impl Sut for S {
 }
 
 impl S {
-    /// state predicates of the property, evaluated on the implementation's observations after every op
+    /// state predicates of the property, evaluated after every op on the implementation's observations against the ghost
     fn after_monitors(&mut self, op: &str) {
+        if self.cnt != self.toks.len() as u64 {
+            self.flag(op, "collection-count-mismatch", format!("NumTokens = {} but AllTokens lists {} tokens", self.cnt, self.toks.len()));
+        }
         if self.cfg.fixed {
             let n = self.cfg.n.unwrap_or(0) as u64;
             let want = n as i128 - self.seen.len() as i128 - self.burned as i128;
@@ -574,6 +1026,13 @@ impl S {
             if let Some(bad) = self.pos.iter().find(|(_, id)| self.seen.contains(id)) {
                 self.flag(op, "minted-id-still-mintable", format!("position {} still offers id {} which was already minted", bad.0, bad.1));
             }
+            // the set of remaining ids is exactly 1..=n minus minted (nothing after a burn): no id lost, invented or offered twice
+            let mut have: Vec<u64> = self.pos.iter().map(|x| x.1).collect();
+            have.sort();
+            let wantset: Vec<u64> = if self.burn_done { vec![] } else { (1..=n).filter(|i| !self.seen.contains(i)).collect() };
+            if have != wantset {
+                self.flag(op, "remaining-ids-changed", format!("mintable ids are {:?} but 1..={n} minus minted{} is {:?}", have, if self.burn_done { " (all burned)" } else { "" }, wantset));
+            }
             if let Some(bad) = self.toks.iter().find(|(id, _)| !self.seen.contains(id)) {
                 self.flag(op, "collection-token-not-minted", format!("collection holds token {} which this minter never minted", bad.0));
             }
@@ -582,6 +1041,10 @@ impl S {
                 let total = self.q_count(&self.minter, json!({"total_mint_count":{}}));
                 if total != Some(self.successes) {
                     self.flag(op, "total-mint-miscount", format!("TotalMintCount = {:?}, successful mints = {}", total, self.successes));
+                }
+                let want = self.ghost_mintable_seq();
+                if self.m != want {
+                    self.flag(op, "mintable-miscount", format!("MintableNumTokens = {:?} but cap {:?} - successful mints {} (burn-remaining done: {}) = {:?}", self.m, self.cap, self.successes, self.burn_done, want));
                 }
             }
             if let Some(bad) = self.toks.iter().find(|(id, _)| *id < 1 || *id > self.last_seq) {
@@ -600,11 +1063,15 @@ struct Gen {
     wl_count: BTreeMap<u64, u32>,
     n_buyers: u64,
     next_src: [u64; 2],
-    dep_count: BTreeMap<u64, u32>, // deposits pending per recipient (token-merge)
 }
 
 fn step(ses: &mut Session, sut: &mut S, line: String) -> bool {
-    ses.step(sut, &line).starts_with("ok")
+    let ok = ses.step(sut, &line).starts_with("ok");
+    let kind = sut.cfg.kind.name();
+    for v in sut.sent.drain(..) {
+        ses.mark(format!("sent:{kind}:{v};"));
+    }
+    ok
 }
 
 fn mark_op(ses: &mut Session, sut: &S, op: &str, ok: bool, class: &str) {
@@ -625,7 +1092,21 @@ fn set_time(ses: &mut Session, sut: &mut S, g: &mut Gen, t: u64) {
 }
 
 fn wl_active(g: &Gen, sut: &S) -> bool {
-    sut.cfg.wl && g.now >= WL_START && g.now < WL_END
+    sut.has_wl && g.now >= WL_START && g.now < WL_END
+}
+
+fn unknown_exec(sut: &S) -> Vec<String> {
+    schema_variants(&sut.exec_root).into_iter().map(|x| x.0).filter(|v| !KNOWN_EXEC.contains(&v.as_str())).collect()
+}
+fn unknown_sudo(sut: &S) -> Vec<String> {
+    schema_variants(&sut.sudo_root).into_iter().map(|x| x.0).filter(|v| !KNOWN_SUDO.contains(&v.as_str())).collect()
+}
+
+fn mark_pick(ses: &mut Session, sut: &S) {
+    if let Some((i, len)) = sut.last_pick {
+        ses.mark(format!("pick:{}:len{}", if i < 50 { format!("front{}", i / 10) } else { format!("back{}", (len - 1 - i) / 10) }, (len > 50) as u8 + (len > 100) as u8));
+        ses.count(if i < 50 && len - 1 - i >= 50 { "pick:front-window" } else if i >= 50 { "pick:back-window" } else { "pick:both-windows" });
+    }
 }
 
 /// one buyer mint (public or whitelist), mostly valid
@@ -653,9 +1134,7 @@ fn do_buyer_mint(ses: &mut Session, sut: &mut S, g: &mut Gen, rng: &mut Rng) {
             g.next_src[ci] = src;
         }
         mark_op(ses, sut, "deposit", ok, if ci == 0 { "listed" } else { "unlisted" });
-        if let Some((i, len)) = sut.last_pick {
-            ses.mark(format!("pick:{}:len{}", if i < 50 { format!("front{}", i / 10) } else { format!("back{}", (len - 1 - i) / 10) }, (len > 50) as u8 + (len > 100) as u8));
-        }
+        mark_pick(ses, sut);
         return;
     }
     let price = if kind == MinterKind::Base { BASE_FEE } else { sut.current_price() };
@@ -673,10 +1152,45 @@ fn do_buyer_mint(ses: &mut Session, sut: &mut S, g: &mut Gen, rng: &mut Rng) {
         }
     }
     mark_op(ses, sut, if wl { "mint-wl" } else { "mint" }, ok, if pay == price { "exact" } else { "wrongpay" });
-    if let Some((i, len)) = sut.last_pick {
-        ses.mark(format!("pick:{}:len{}", if i < 50 { format!("front{}", i / 10) } else { format!("back{}", (len - 1 - i) / 10) }, (len > 50) as u8 + (len > 100) as u8));
-        ses.count(if i < 50 && len - 1 - i >= 50 { "pick:front-window" } else if i >= 50 { "pick:back-window" } else { "pick:both-windows" });
+    mark_pick(ses, sut);
+}
+
+/// messages that must not touch the supply state: the rest of the message surface (minter, sudo, migrate, the collection addressed directly)
+fn do_noise(ses: &mut Session, sut: &mut S, g: &mut Gen, rng: &mut Rng) {
+    let kind = sut.cfg.kind;
+    let n = sut.cfg.n.unwrap_or(0) as u64;
+    let who = if rng.chance(85, 100) { ADMIN } else if rng.chance(1, 2) { STRANGER } else { BUYER0 + rng.below(3) };
+    let unk = unknown_exec(sut);
+    let unks = unknown_sudo(sut);
+    let c = rng.below(if unk.is_empty() && unks.is_empty() { 15 } else { 19 });
+    // an id the collection does not hold yet but the minter could still hand out (fixed), or the next sequential id
+    let fresh_id = if sut.cfg.fixed { sut.pos.first().map(|x| x.1).unwrap_or(n + 1) } else { sut.last_seq + 1 };
+    let line = match c {
+        0 => format!("noise who={who} what=pal arg={}", rng.range(1, 4)),
+        1 => format!("noise who={who} what=price arg={}", *rng.pick(&[PRICE, PRICE - 10_000_000, 50_000_000, 49_999_999])),
+        2 => format!("noise who={who} what=start arg={}", g.now + rng.range(0, 100) * SEC),
+        3 => format!("noise who={who} what=end arg={}", g.now + rng.range(0, 2000) * SEC),
+        4 => format!("noise who={ADMIN} what=fmax arg={}", rng.range(1, 12)),
+        5 => format!("noise who={who} what=tstart arg={}", if rng.chance(1, 2) { 0 } else { g.now + rng.range(1, 1000) * SEC }),
+        6 => format!("noise who={who} what=setwl arg=0"),
+        7 => format!("noise who={who} what=disc arg={}", *rng.pick(&[PRICE - 20_000_000, 50_000_000, PRICE + 1, 49_999_999])),
+        8 => format!("noise who={who} what=rmdisc arg=0"),
+        9 => format!("noise who={ADMIN} what=status arg={}", rng.below(8)),
+        10 | 11 => format!("noise who={} what=migrate arg=0", if rng.chance(8, 10) { ADMIN } else { STRANGER }),
+        12 => format!("noise who={} what=coll_mint id={} arg=0", *rng.pick(&[ADMIN, STRANGER, BUYER0]), *rng.pick(&[fresh_id, n + 1, 1])),
+        13 => format!("noise who={} what=coll_own arg=0", *rng.pick(&[ADMIN, STRANGER])),
+        14 => format!("noise who={} what=coll_accept arg=0", *rng.pick(&[ADMIN, STRANGER])),
+        15 | 16 | 17 if !unk.is_empty() => format!("noise who={who} what=x:{} arg={} pay={}", rng.pick(&unk), *rng.pick(&[0u64, 1, 2, 7, 1000]), *rng.pick(&[0u128, 0, PRICE])),
+        _ if !unks.is_empty() => format!("noise who={ADMIN} what=sx:{} arg={}", rng.pick(&unks), *rng.pick(&[0u64, 1, 7])),
+        _ => format!("noise who={who} what=x:{} arg={} pay=0", rng.pick(&unk), *rng.pick(&[0u64, 1, 7])),
+    };
+    let what = kv(&line, "what").unwrap_or("").to_string();
+    let ok = step(ses, sut, line.clone());
+    if ok && what == "pal" {
+        g.pal = kv_u64(&line, "arg").unwrap_or(1) as u32;
     }
+    let _ = kind;
+    mark_op(ses, sut, &format!("noise-{what}"), ok, if who == ADMIN { "admin" } else { "stranger" });
 }
 
 fn do_other_op(ses: &mut Session, sut: &mut S, g: &mut Gen, rng: &mut Rng) {
@@ -693,29 +1207,30 @@ fn do_other_op(ses: &mut Session, sut: &mut S, g: &mut Gen, rng: &mut Rng) {
         }
     };
     if kind == MinterKind::Base {
-        // base-minter has only Mint; everything else is an unknown message
+        // base-minter has only Mint and UpdateStartTradingTime; everything else is an unknown message
         match r {
-            0..=39 => {
+            0..=29 => {
                 if let Some((id, own)) = sut.toks.get(rng.below(sut.toks.len().max(1) as u64) as usize).copied() {
                     let who = if rng.chance(7, 10) { own } else { STRANGER };
                     let ok = step(ses, sut, format!("coll_burn who={who} id={id}"));
                     mark_op(ses, sut, "coll_burn", ok, if who == own { "owner" } else { "stranger" });
                 }
             }
-            40..=59 => {
+            30..=44 => {
                 if let Some((id, own)) = sut.toks.get(rng.below(sut.toks.len().max(1) as u64) as usize).copied() {
                     let ok = step(ses, sut, format!("coll_transfer who={own} to={} id={id}", BUYER0 + rng.below(4)));
                     mark_op(ses, sut, "coll_transfer", ok, "owner");
                 }
             }
-            60..=69 => {
+            45..=54 => {
                 let ok = step(ses, sut, format!("burn_remaining who={ADMIN}"));
                 mark_op(ses, sut, "burn_remaining", ok, "no-such-msg");
             }
-            70..=79 => {
+            55..=64 => {
                 let ok = step(ses, sut, format!("mint_to who={ADMIN} to={} pay={BASE_FEE}", BUYER0));
                 mark_op(ses, sut, "mint_to", ok, "no-such-msg");
             }
+            65..=84 => do_noise(ses, sut, g, rng),
             _ => {
                 let t = g.now + rng.range(1, 50) * SEC;
                 set_time(ses, sut, g, t);
@@ -724,18 +1239,16 @@ fn do_other_op(ses: &mut Session, sut: &mut S, g: &mut Gen, rng: &mut Rng) {
         return;
     }
     match r {
-        0..=17 => {
+        0..=15 => {
             // MintTo
             let who = sender(rng, true);
             let to = BUYER0 + rng.below(g.n_buyers);
             let pay = if rng.chance(9, 10) { air } else { air + 1 };
             let ok = step(ses, sut, format!("mint_to who={who} to={to} pay={pay}"));
             mark_op(ses, sut, "mint_to", ok, if who == ADMIN { "admin" } else { "stranger" });
-            if let Some((i, len)) = sut.last_pick {
-                ses.mark(format!("pick:{}:len{}", if i < 50 { format!("front{}", i / 10) } else { format!("back{}", (len - 1 - i) / 10) }, (len > 50) as u8 + (len > 100) as u8));
-            }
+            mark_pick(ses, sut);
         }
-        18..=35 if fixed => {
+        16..=31 if fixed => {
             // MintFor: remaining id / sold id / 0 / n+1 / huge
             let who = sender(rng, true);
             let to = BUYER0 + rng.below(g.n_buyers);
@@ -763,25 +1276,40 @@ fn do_other_op(ses: &mut Session, sut: &mut S, g: &mut Gen, rng: &mut Rng) {
             let ok = step(ses, sut, format!("mint_for who={who} to={to} id={id} pay={pay}"));
             mark_op(ses, sut, "mint_for", ok, &format!("{class}:{}", if who == ADMIN { "admin" } else { "stranger" }));
         }
-        36..=47 if fixed => {
+        32..=41 if fixed => {
             let who = sender(rng, false);
             let shf = sut.cfg.shf;
             let pay = if rng.chance(85, 100) { shf } else { *rng.pick(&[0, shf - 1, shf + 1]) };
             let ok = step(ses, sut, format!("shuffle who={who} pay={pay}"));
             mark_op(ses, sut, "shuffle", ok, if pay == shf { "fee" } else { "wrongfee" });
         }
-        48..=53 => {
+        42..=45 if fixed => {
+            // same block, same sender: Shuffle, then MintFor of the id the shuffle just moved to the first / last position, then MintTo
+            let shf = sut.cfg.shf;
+            let ok = step(ses, sut, format!("shuffle who={ADMIN} pay={shf}"));
+            mark_op(ses, sut, "shuffle", ok, "same-block-admin");
+            if let Some(&(_, id)) = if rng.chance(1, 2) { sut.pos.first() } else { sut.pos.last() } {
+                let ok = step(ses, sut, format!("mint_for who={ADMIN} to={} id={id} pay={air}", BUYER0 + rng.below(g.n_buyers)));
+                mark_op(ses, sut, "mint_for", ok, "same-block-after-shuffle");
+                // and the id once more, still in the same block
+                let ok = step(ses, sut, format!("mint_for who={ADMIN} to={} id={id} pay={air}", BUYER0 + rng.below(g.n_buyers)));
+                mark_op(ses, sut, "mint_for", ok, "same-block-repeat");
+            }
+            let ok = step(ses, sut, format!("mint_to who={ADMIN} to={} pay={air}", BUYER0 + rng.below(g.n_buyers)));
+            mark_op(ses, sut, "mint_to", ok, "same-block-after-shuffle");
+        }
+        46..=50 => {
             let who = sender(rng, false);
             let ok = step(ses, sut, format!("purge who={who}"));
             mark_op(ses, sut, "purge", ok, "any");
         }
-        54..=56 => {
+        51..=53 => {
             // BurnRemaining by a non-admin (must fail) — the admin's burn is scheduled by the case driver
             let who = if rng.chance(1, 2) { STRANGER } else { BUYER0 };
             let ok = step(ses, sut, format!("burn_remaining who={who}"));
             mark_op(ses, sut, "burn_remaining", ok, "stranger");
         }
-        57..=68 => {
+        54..=63 => {
             // a holder (or somebody else) burns a token in the collection
             let c = rng.below(10);
             if c < 8 && !sut.toks.is_empty() {
@@ -795,7 +1323,7 @@ fn do_other_op(ses: &mut Session, sut: &mut S, g: &mut Gen, rng: &mut Rng) {
                 mark_op(ses, sut, "coll_burn", ok, "no-such-token");
             }
         }
-        69..=74 => {
+        64..=68 => {
             if !sut.toks.is_empty() {
                 let (id, own) = sut.toks[rng.below(sut.toks.len() as u64) as usize];
                 let who = if rng.chance(8, 10) { own } else { STRANGER };
@@ -803,48 +1331,31 @@ fn do_other_op(ses: &mut Session, sut: &mut S, g: &mut Gen, rng: &mut Rng) {
                 mark_op(ses, sut, "coll_transfer", ok, if who == own { "owner" } else { "not-owner" });
             }
         }
-        75..=84 => {
+        69..=71 => {
+            // a holder sends its token to the minter contract (`send_nft`): vending / open edition have no ReceiveNft, token-merge
+            // receives a token of a collection that is not on its list
+            if !sut.toks.is_empty() {
+                let (id, own) = sut.toks[rng.below(sut.toks.len() as u64) as usize];
+                let ok = step(ses, sut, format!("coll_send who={own} to={} id={id}", addr_id(&sut.minter)));
+                mark_op(ses, sut, "coll_send", ok, "holder-to-minter");
+            }
+        }
+        72..=81 => {
             let t = g.now + if rng.chance(1, 2) { rng.range(1, 30) * SEC } else { rng.range(1, 3) };
             set_time(ses, sut, g, t);
         }
-        _ => {
-            // messages that must not touch the supply state
-            let who = sender(rng, true);
-            let (what, arg): (&str, u128) = match rng.below(6) {
-                0 => ("pal", rng.range(1, 4) as u128),
-                1 => ("price", *rng.pick(&[PRICE, PRICE - 10_000_000, 50_000_000, 49_999_999])),
-                2 => ("start", (g.now + rng.range(0, 100) * SEC) as u128),
-                3 => ("end", (g.now + rng.range(0, 2000) * SEC) as u128),
-                4 => ("fmax", rng.range(1, 12) as u128),
-                _ => ("tstart", 0),
-            };
-            let who = if what == "fmax" { ADMIN } else { who };
-            let ok = step(ses, sut, format!("noise who={who} what={what} arg={arg}"));
-            if ok && what == "pal" {
-                g.pal = arg as u32;
-            }
-            mark_op(ses, sut, &format!("noise-{what}"), ok, if who == ADMIN { "admin" } else { "stranger" });
-        }
+        _ => do_noise(ses, sut, g, rng),
     }
 }
 
 fn new_gen(sut: &S) -> Gen {
-    Gen {
-        now: T0,
-        pal: sut.cfg.pal,
-        pub_count: BTreeMap::new(),
-        wl_count: BTreeMap::new(),
-        n_buyers: sut.cfg.n.unwrap_or(sut.cfg.fmax.min(200)) as u64 + 8,
-        next_src: [0, 0],
-        dep_count: BTreeMap::new(),
-    }
+    Gen { now: T0, pal: sut.cfg.pal, pub_count: BTreeMap::new(), wl_count: BTreeMap::new(), n_buyers: sut.cfg.n.unwrap_or(sut.cfg.fmax.min(200)) as u64 + 8, next_src: [0, 0] }
 }
 
 /// sell a collection out completely (or burn the rest), interleaving everything else, then poke the sold-out state
 fn run_case(ses: &mut Session, sut: &mut S, rng: &mut Rng, header: &str, max_ops: usize) {
     ses.begin_case(sut, header);
     let mut g = new_gen(sut);
-    let _ = &g.dep_count;
     let kind = sut.cfg.kind;
     let fixed = sut.cfg.fixed;
     ses.count(&format!("case:{}", kind.name()));
@@ -855,6 +1366,9 @@ fn run_case(ses: &mut Session, sut: &mut S, rng: &mut Rng, header: &str, max_ops
     }
     if rng.chance(1, 3) {
         do_other_op(ses, sut, &mut g, rng);
+    }
+    if rng.chance(1, 4) {
+        do_noise(ses, sut, &mut g, rng);
     }
     if sut.cfg.wl {
         let t = *rng.pick(&[WL_START - 1, WL_START, WL_START + 1]);
@@ -890,9 +1404,10 @@ fn run_case(ses: &mut Session, sut: &mut S, rng: &mut Rng, header: &str, max_ops
             if minted_so_far >= b {
                 burned = true;
                 if kind.is_open_edition() && sut.cfg.has_end {
-                    // open edition: only after the end time; probe the exact boundary first
+                    // open edition: only after the end time; probe the exact boundary first (a mint and the burn at end-1 / end / end+1)
                     let t = *rng.pick(&[END - 1, END, END + 1]);
                     set_time(ses, sut, &mut g, t);
+                    do_buyer_mint(ses, sut, &mut g, rng);
                     let ok = step(ses, sut, format!("burn_remaining who={ADMIN}"));
                     mark_op(ses, sut, "burn_remaining", ok, "admin-at-end-boundary");
                     set_time(ses, sut, &mut g, END + 1);
@@ -910,7 +1425,7 @@ fn run_case(ses: &mut Session, sut: &mut S, rng: &mut Rng, header: &str, max_ops
     }
     ses.count(if done_target(sut) { "case:reached-zero-or-target" } else { "case:cut-by-op-budget" });
     // poke the final state: nothing may be minted at zero / after a burn
-    let tail = rng.range(4, 9);
+    let tail = rng.range(4, 10);
     for i in 0..tail {
         match i {
             0 => do_buyer_mint(ses, sut, &mut g, rng),
@@ -935,6 +1450,7 @@ fn run_case(ses: &mut Session, sut: &mut S, rng: &mut Rng, header: &str, max_ops
                 let ok = step(ses, sut, format!("burn_remaining who={ADMIN}"));
                 mark_op(ses, sut, "burn_remaining", ok, "tail");
             }
+            6 => do_noise(ses, sut, &mut g, rng),
             _ => {
                 if rng.chance(1, 2) {
                     do_buyer_mint(ses, sut, &mut g, rng)
@@ -945,6 +1461,193 @@ fn run_case(ses: &mut Session, sut: &mut S, rng: &mut Rng, header: &str, max_ops
         }
     }
     ses.end_case();
+}
+
+/// Deterministic tour (no randomness besides the contracts' own): sends EVERY message variant found in the crate's schemas
+/// (known ones as valid calls, unknown ones as raw JSON with several fill values, by the admin and by a stranger), `migrate`,
+/// sudo, the collection addressed directly, at three points of a sale: before the start, mid-sale, at zero — and marks the
+/// classes the coverage floor requires (`tour:<kind>:…`). Two cases per kind: sell-out and burn-remaining.
+fn tour(ses: &mut Session, sut: &mut S, kind: MinterKind) {
+    let idx = kind.idx();
+    let fixed = kind.is_vending() || kind == MinterKind::TokenMerge;
+    let k = kind.name();
+    for burn_case in [false, true] {
+        let header = if fixed {
+            format!("case fam=fixed kind={idx} n=4 fmax=10000 pal=3 wl=0 air=0 shf=500000000 need=1 tour=1")
+        } else if kind == MinterKind::Base {
+            if burn_case {
+                continue;
+            }
+            format!("case fam=seq kind={idx} num=- fmax=10000 end=0 pal=1 wl=0 air=0 shf=0 need=1 tour=1")
+        } else {
+            format!("case fam=seq kind={idx} num=4 fmax=10000 end=0 pal=3 wl=0 air=0 shf=0 need=1 tour=1")
+        };
+        ses.begin_case(sut, &header);
+        let mut src = 0u64;
+        let b = |i: u64| BUYER0 + 4 + i; // not whitelist members
+        let surface = |ses: &mut Session, sut: &mut S, tag: &str| {
+            // everything that is neither a mint nor shuffle / burn-remaining / purge
+            let now = sut.w().time();
+            let mut lines = vec![
+                format!("noise who={ADMIN} what=pal arg=3"),
+                format!("noise who={ADMIN} what=price arg={}", PRICE - 1_000_000),
+                format!("noise who={ADMIN} what=start arg={}", START),
+                format!("noise who={ADMIN} what=end arg={}", END + SEC),
+                format!("noise who={ADMIN} what=tstart arg=0"),
+                format!("noise who={ADMIN} what=setwl arg=0"),
+                format!("noise who={ADMIN} what=disc arg={}", PRICE - 30_000_000),
+                format!("noise who={ADMIN} what=rmdisc arg=0"),
+                format!("noise who={ADMIN} what=status arg=1"),
+                format!("noise who={ADMIN} what=fmax arg=2"),
+                format!("noise who={ADMIN} what=migrate arg=0"),
+                format!("noise who={STRANGER} what=migrate arg=0"),
+                format!("noise who={STRANGER} what=coll_own arg=0"),
+                format!("noise who={STRANGER} what=coll_accept arg=0"),
+                format!("noise who={ADMIN} what=coll_own arg=0"),
+            ];
+            let n = sut.cfg.n.unwrap_or(4) as u64;
+            let next_id = if sut.cfg.fixed { sut.pos.first().map(|x| x.1).unwrap_or(n + 1) } else { sut.last_seq + 1 };
+            for who in [STRANGER, ADMIN] {
+                lines.push(format!("noise who={who} what=coll_mint id={next_id} arg=0"));
+            }
+            for v in unknown_exec(sut) {
+                for who in [ADMIN, STRANGER] {
+                    for arg in [0u64, 1, 7] {
+                        lines.push(format!("noise who={who} what=x:{v} arg={arg} pay=0"));
+                    }
+                }
+                lines.push(format!("noise who={ADMIN} what=x:{v} arg=2 pay={PRICE}"));
+            }
+            for v in unknown_sudo(sut) {
+                for arg in [0u64, 1, 7] {
+                    lines.push(format!("noise who={ADMIN} what=sx:{v} arg={arg}"));
+                }
+            }
+            let _ = now;
+            for l in lines {
+                let what = kv(&l, "what").unwrap_or("").to_string();
+                let who = kv_u64(&l, "who").unwrap_or(0);
+                let ok = step(ses, sut, l);
+                if ok {
+                    ses.mark(format!("tour:{}:{what}:ok:{tag}", sut.cfg.kind.name()));
+                    if what == "migrate" && who == ADMIN {
+                        ses.mark(format!("tour:{}:migrate-by-admin:ok", sut.cfg.kind.name()));
+                    }
+                }
+            }
+        };
+        let buyer_mint = |ses: &mut Session, sut: &mut S, src: &mut u64, who: u64| -> bool {
+            if sut.cfg.kind == MinterKind::TokenMerge {
+                *src += 1;
+                step(ses, sut, format!("deposit who={ADMIN} to={who} src={} coll=0", *src))
+            } else if sut.cfg.kind == MinterKind::Base {
+                step(ses, sut, format!("mint who={ADMIN} pay={BASE_FEE}"))
+            } else {
+                let price = sut.current_price();
+                step(ses, sut, format!("mint who={who} pay={price}"))
+            }
+        };
+        // ---- before the start
+        surface(ses, sut, "before-start");
+        if buyer_mint(ses, sut, &mut src, b(0)) && kind != MinterKind::Base {
+            ses.mark(format!("tour:{k}:mint-before-start:ok"));
+        }
+        step(ses, sut, format!("t ns={}", START + 1));
+        // ---- first sale, then the surface again on a live state
+        if buyer_mint(ses, sut, &mut src, b(0)) {
+            ses.mark(format!("tour:{k}:mint:ok"));
+        }
+        surface(ses, sut, "mid-sale");
+        if kind == MinterKind::Base {
+            if buyer_mint(ses, sut, &mut src, b(0)) {
+                ses.mark(format!("tour:{k}:mint-after-migrate:ok"));
+            }
+            let (id, own) = sut.toks[0];
+            step(ses, sut, format!("coll_send who={own} to={} id={id}", addr_id(&sut.minter)));
+            if step(ses, sut, format!("coll_burn who={own} id={id}")) {
+                ses.mark(format!("tour:{k}:coll_burn:ok"));
+            }
+            if buyer_mint(ses, sut, &mut src, b(0)) {
+                ses.mark(format!("tour:{k}:mint-after-holder-burn:ok"));
+            }
+            ses.end_case();
+            continue;
+        }
+        if fixed {
+            if step(ses, sut, format!("shuffle who={} pay=500000000", b(1))) {
+                ses.mark(format!("tour:{k}:shuffle:ok"));
+            }
+            // same block: MintFor of the id now in the first position, and once more (must be rejected: sold)
+            let id = sut.pos[0].1;
+            if step(ses, sut, format!("mint_for who={ADMIN} to={} id={id} pay=0", b(2))) {
+                ses.mark(format!("tour:{k}:mint_for:ok"));
+            }
+            if !step(ses, sut, format!("mint_for who={ADMIN} to={} id={id} pay=0", b(2))) {
+                ses.mark(format!("tour:{k}:mint_for-sold:err"));
+            }
+            for bad in [0u64, 5, 4_000_000_000] {
+                if !step(ses, sut, format!("mint_for who={ADMIN} to={} id={bad} pay=0", b(2))) {
+                    ses.mark(format!("tour:{k}:mint_for-invalid:err"));
+                }
+            }
+            step(ses, sut, format!("mint_for who={STRANGER} to={} id={} pay=0", b(2), sut.pos[0].1));
+        }
+        // a holder sends / burns its token: the id must never come back
+        let (id, own) = sut.toks[0];
+        step(ses, sut, format!("coll_send who={own} to={} id={id}", addr_id(&sut.minter)));
+        if step(ses, sut, format!("coll_burn who={own} id={id}")) {
+            ses.mark(format!("tour:{k}:coll_burn:ok"));
+        }
+        if fixed && !step(ses, sut, format!("mint_for who={ADMIN} to={} id={id} pay=0", b(2))) {
+            ses.mark(format!("tour:{k}:mint_for-burnt-by-holder:err"));
+        }
+        step(ses, sut, format!("burn_remaining who={STRANGER}"));
+        step(ses, sut, format!("purge who={STRANGER}"));
+        if burn_case {
+            if step(ses, sut, format!("burn_remaining who={ADMIN}")) {
+                ses.mark(format!("tour:{k}:burn_remaining:ok"));
+            }
+        } else {
+            if step(ses, sut, format!("mint_to who={ADMIN} to={} pay=0", b(3))) {
+                ses.mark(format!("tour:{k}:mint_to:ok"));
+            }
+            // sell the rest
+            for i in 0..6u64 {
+                if sut.m == Some(0) {
+                    break;
+                }
+                buyer_mint(ses, sut, &mut src, b(1 + i % 3));
+            }
+            if sut.m == Some(0) {
+                ses.mark(format!("tour:{k}:sold-out"));
+            }
+        }
+        // ---- at zero: every mint path, shuffle, burn must be rejected; purge passes; the surface once more
+        if sut.m == Some(0) {
+            let mut all_rejected = !buyer_mint(ses, sut, &mut src, b(4));
+            all_rejected &= !step(ses, sut, format!("mint_to who={ADMIN} to={} pay=0", b(3)));
+            if fixed {
+                let sold = *sut.seen.iter().next().unwrap_or(&1);
+                all_rejected &= !step(ses, sut, format!("mint_for who={ADMIN} to={} id={sold} pay=0", b(2)));
+                for idq in 1..=4u64 {
+                    all_rejected &= !step(ses, sut, format!("mint_for who={ADMIN} to={} id={idq} pay=0", b(2)));
+                }
+                all_rejected &= !step(ses, sut, format!("shuffle who={} pay=500000000", b(1)));
+            }
+            all_rejected &= !step(ses, sut, format!("burn_remaining who={ADMIN}"));
+            if all_rejected {
+                ses.mark(format!("tour:{k}:all-rejected-at-zero"));
+            }
+            if step(ses, sut, format!("purge who={STRANGER}")) {
+                ses.mark(format!("tour:{k}:purge:ok"));
+            }
+            surface(ses, sut, "at-zero");
+            if !buyer_mint(ses, sut, &mut src, b(5)) {
+                ses.mark(format!("tour:{k}:mint-after-surface-at-zero:err"));
+            }
+        }
+        ses.end_case();
+    }
 }
 
 fn header_for(rng: &mut Rng, kind: MinterKind, n_choice: Option<u32>) -> String {
@@ -987,32 +1690,25 @@ fn header_for(rng: &mut Rng, kind: MinterKind, n_choice: Option<u32>) -> String 
     }
 }
 
-/// every op sequence of a fixed length over a small alphabet, on tiny collections (model validation, thorough tier)
+/// every op sequence of a fixed length over a small alphabet, on tiny collections (model validation)
 fn exhaustive(ses: &mut Session, sut: &mut S, kind: MinterKind, n: u32, depth: usize) {
     let fixed = kind.is_vending() || kind == MinterKind::TokenMerge;
     let b0 = BUYER0 + 5;
     let b1 = BUYER0 + 6;
-    let alphabet: Vec<String> = if kind == MinterKind::TokenMerge {
+    let mid = (n + 1) / 2;
+    let alphabet: Vec<String> = if fixed {
+        let first = if kind == MinterKind::TokenMerge { format!("deposit who={ADMIN} to={b0} src=@ coll=0") } else { format!("mint who={b0} pay={PRICE}") };
         vec![
-            format!("deposit who={ADMIN} to={b0} src=@ coll=0"),
+            first,
             format!("mint_to who={ADMIN} to={b1} pay=0"),
             format!("mint_for who={ADMIN} to={b0} id=1 pay=0"),
+            format!("mint_for who={ADMIN} to={b0} id={mid} pay=0"),
             format!("mint_for who={ADMIN} to={b0} id={n} pay=0"),
-            format!("shuffle who={b1} pay=500000000"),
+            format!("shuffle who={ADMIN} pay=500000000"),
             format!("burn_remaining who={ADMIN}"),
             format!("purge who={b1}"),
             format!("coll_burn who={b0} id=1"),
-        ]
-    } else if fixed {
-        vec![
-            format!("mint who={b0} pay={PRICE}"),
-            format!("mint_to who={ADMIN} to={b1} pay=0"),
-            format!("mint_for who={ADMIN} to={b0} id=1 pay=0"),
-            format!("mint_for who={ADMIN} to={b0} id={n} pay=0"),
-            format!("shuffle who={b1} pay=500000000"),
-            format!("burn_remaining who={ADMIN}"),
-            format!("purge who={b1}"),
-            format!("coll_burn who={b0} id=1"),
+            format!("noise who={ADMIN} what=migrate arg=0"),
         ]
     } else {
         vec![
@@ -1023,6 +1719,7 @@ fn exhaustive(ses: &mut Session, sut: &mut S, kind: MinterKind, n: u32, depth: u
             format!("purge who={b1}"),
             format!("coll_burn who={b0} id=1"),
             format!("noise who={ADMIN} what=fmax arg=1"),
+            format!("noise who={ADMIN} what=migrate arg=0"),
         ]
     };
     let k = alphabet.len();
@@ -1060,6 +1757,49 @@ fn main() {
     }
     let mut rng = ses.rng.fork();
 
+    // 0. the message surface, enumerated at run time from the crates' JSON schemas; deterministic tour; coverage floor
+    let sudo_vs: Vec<String> = schema_variants(&sudo_schema()).into_iter().map(|x| x.0).collect();
+    assert!(!sudo_vs.is_empty(), "no SudoMsg variants found in the schema");
+    for kind in ALL_MINTERS {
+        let k = kind.name();
+        let vs: Vec<String> = schema_variants(&exec_schema(kind)).into_iter().map(|x| x.0).collect();
+        assert!(vs.iter().any(|v| v == "mint" || v == "receive_nft"), "schema enumeration of {k} found no mint variant: {:?}", vs);
+        for v in &vs {
+            ses.require(format!("sent:{k}:{v};"));
+            if !KNOWN_EXEC.contains(&v.as_str()) {
+                ses.mark(format!("unknown-variant:{k}:{v}"));
+                ses.note(format!("ExecuteMsg variant `{v}` of {k} is not known to the C01 harness: sent as raw JSON built from the schema (noise what=x:{v}) under all monitors"));
+            }
+        }
+        for v in &sudo_vs {
+            ses.require(format!("sent:{k}:sudo:{v};"));
+            if !KNOWN_SUDO.contains(&v.as_str()) {
+                ses.mark(format!("unknown-variant:{k}:sudo:{v}"));
+                ses.note(format!("SudoMsg variant `{v}` is not known to the C01 harness: sent as raw JSON (noise what=sx:{v})"));
+            }
+        }
+        ses.require(format!("sent:{k}:migrate;"));
+        ses.require(format!("tour:{k}:mint:ok"));
+        ses.require(format!("tour:{k}:coll_burn:ok"));
+        if kind == MinterKind::Base {
+            ses.require(format!("tour:{k}:mint-after-holder-burn:ok"));
+        } else {
+            for c in ["mint_to:ok", "burn_remaining:ok", "purge:ok", "sold-out", "all-rejected-at-zero", "mint-after-surface-at-zero:err", "migrate-by-admin:ok", "status:ok:mid-sale"] {
+                ses.require(format!("tour:{k}:{c}"));
+            }
+        }
+        if kind.is_vending() || kind == MinterKind::TokenMerge {
+            for c in ["shuffle:ok", "mint_for:ok", "mint_for-sold:err", "mint_for-invalid:err", "mint_for-burnt-by-holder:err"] {
+                ses.require(format!("tour:{k}:{c}"));
+            }
+        }
+        if kind.is_vending() || kind.is_open_edition() {
+            ses.require(format!("tour:{k}:setwl:ok:before-start"));
+        }
+        tour(&mut ses, &mut sut, kind);
+    }
+    ses.count(&format!("surface:exec-variants-total:{}", ALL_MINTERS.iter().map(|k| schema_variants(&exec_schema(*k)).len()).sum::<usize>()));
+
     // 1. every minter kind × every collection size of the window logic, sold out completely
     let sizes: [u32; 7] = [1, 2, 3, 7, 50, 51, 101];
     let big_rounds = ses.scale(2, 12);
@@ -1083,18 +1823,32 @@ fn main() {
     }
     // 3. exhaustive small scopes
     if ses.tier() == Tier::Thorough {
-        exhaustive(&mut ses, &mut sut, MinterKind::Vending, 2, 4);
+        exhaustive(&mut ses, &mut sut, MinterKind::Vending, 3, 3);
+        exhaustive(&mut ses, &mut sut, MinterKind::VendingFeatured, 2, 3);
+        exhaustive(&mut ses, &mut sut, MinterKind::VendingFlex, 2, 3);
         exhaustive(&mut ses, &mut sut, MinterKind::VendingFlexFeatured, 3, 3);
         exhaustive(&mut ses, &mut sut, MinterKind::VendingMerkle, 3, 3);
-        exhaustive(&mut ses, &mut sut, MinterKind::TokenMerge, 2, 4);
+        exhaustive(&mut ses, &mut sut, MinterKind::VendingMerkleFeatured, 2, 3);
+        exhaustive(&mut ses, &mut sut, MinterKind::TokenMerge, 3, 3);
         exhaustive(&mut ses, &mut sut, MinterKind::OpenEdition, 2, 4);
         exhaustive(&mut ses, &mut sut, MinterKind::OpenEditionFlex, 2, 4);
         exhaustive(&mut ses, &mut sut, MinterKind::OpenEditionMerkle, 2, 4);
     } else {
-        exhaustive(&mut ses, &mut sut, MinterKind::Vending, 2, 2);
+        exhaustive(&mut ses, &mut sut, MinterKind::Vending, 3, 2);
+        exhaustive(&mut ses, &mut sut, MinterKind::VendingFlexFeatured, 3, 2);
+        exhaustive(&mut ses, &mut sut, MinterKind::TokenMerge, 3, 2);
         exhaustive(&mut ses, &mut sut, MinterKind::OpenEdition, 2, 2);
     }
-    ses.note("collection sizes n ∈ {1,2,3,7,50,51,101} (first/last-50 pick window crossed); open editions with configured cap, with the factory cap captured at creation (tiny factory limits), and uncapped (-wl-flex); whitelist (plain/flex/merkle) stages before the public start; exact instants start-1ns/start/start+1ns, wl start/end, end-1/end/end+1 for BurnRemaining");
-    ses.note("gate witness: 0 iff the implementation failed with an error that is not one of {sold out, not sold out, already sold, invalid token id, already claimed, panic}; the model must then fail too (trivially) — for every other outcome ok/err and the full observation vector must agree");
+    // 4. diagnostics that never change the verdict
+    for d in source_divergence() {
+        println!("DRIFT property=C01 outside-projection variant-source {d}");
+        ses.note(format!("variant-source drift (one model for seven crates): {d}"));
+    }
+    if sut.eff_surprises > 0 {
+        println!("DRIFT property=C01 outside-projection token-merge deposits whose completion differed from the harness' own requirement bookkeeping (last case): {}", sut.eff_surprises);
+    }
+    ses.note("collection sizes n ∈ {1,2,3,7,50,51,101} (first/last-50 pick window crossed); open editions with configured cap, with the factory cap captured at creation (tiny factory limits), and uncapped (-wl-flex); whitelist (plain/flex/merkle) stages before the public start; exact instants start-1ns/start/start+1ns, wl start/end, end-1/end/end+1 for mint + BurnRemaining");
+    ses.note("gate witness: `ok || ghost_rejects` — ghost_rejects is computed BEFORE the call from the harness' own bookkeeping (ids it minted, what it burned, successful mints, owners), never from an error text; error texts only feed the DRIFT field sup=");
+    ses.note("message surface: every ExecuteMsg / SudoMsg variant found in the crates' JSON schemas at run time + migrate must have been sent (coverage floor sent:<kind>:<variant>;), unknown variants as raw JSON built from the schema");
     ses.finish(&mut sut);
 }
